@@ -53,19 +53,19 @@ theorem whole_cpu_ok {β : Type} [Cpu.Bus β] (c : Cpu.Cpu) (b : β) (h : CpuOk 
 
 /-! ### B. the APU on the board -/
 
-theorem board_read_apu (b : Board) (a : Nat) : (b.read a).2.apu = b.apu := by
+private theorem board_read_apu (b : Board) (a : Nat) : (b.read a).2.apu = b.apu := by
   unfold Board.read Board.read?
   cases apuAddr? (rH a) a with
   | some ad => simp only []; cases b.apu.read ad <;> rfl
   | none => simp only []; cases readVal (rH a) b.m a <;> rfl
 
-theorem board_write_apu_ok (b : Board) (a v : Nat) (h : ApuOk b.apu) : ApuOk (b.write a v).apu := by
+private theorem board_write_apu_ok (b : Board) (a v : Nat) (h : ApuOk b.apu) : ApuOk (b.write a v).apu := by
   unfold Board.write Board.write?
   cases apuAddr? (wH a) a with
   | some ad => exact Tetro.ApuOk.write_ok _ _ _ h
   | none => simp only []; cases writeH (wH a) b.m a v <;> exact h
 
-theorem board_corrupt_apu (b : Board) : b.corrupt.apu = b.apu := by
+private theorem board_corrupt_apu (b : Board) : b.corrupt.apu = b.apu := by
   unfold Board.corrupt
   split
   · rfl
